@@ -196,8 +196,19 @@ theorem tcp_isolation {U : Type} (P : UptimeParams U) (fc : Seg → Bool) (c : T
 /-- TLS: a segment touches only the reader of its own directed 4-tuple. -/
 theorem tls_local {R S : Type} (P : TlsParams R S) (s : Seg) :
     (tlsProg P s).Local (fun k => k = (⟨s.src, s.dst⟩ : FlowKey)) := by
+  have hw : ∀ r, (tlsWithReader P ⟨s.src, s.dst⟩ s.payload r).Local (fun k => k = (⟨s.src, s.dst⟩ : FlowKey)) := by
+    intro r
+    unfold tlsWithReader
+    local_tac
   unfold tlsProg
-  local_tac
+  repeat (first
+    | exact hw _
+    | exact Prog.Local.ret _
+    | (apply Prog.Local.get; (first | rfl | skip))
+    | (apply Prog.Local.insert; (first | rfl | skip))
+    | intro _
+    | split
+    | dsimp only)
 
 theorem tls_isolation {R S : Type} (P : TlsParams R S) (c : FlowKey) (tr : List Seg) (cap : Nat)
     (hne : NoEvict (tlsAnalyzer P) ({ cap := cap }, ()) tr) :
